@@ -1,4 +1,5 @@
 import QcoVerif.Model.Builder
+import QcoVerif.Model.StimExport
 /-
   Line protocol for the heap model (build programs).  One command per line, one answer per line.
 -/
@@ -254,6 +255,23 @@ def step (s : Sess) (toks : List String) : Sess × String :=
   | ["dump"] => (s, dumpWorld s)
   | ["warnings"] => (s, toString s.w.warnings)
   | ["collisions"] => (s, toString s.w.collisions)
+  | ["evalcheck", c] =>
+    -- cross-check of the two evaluators: the memoised one the driver answers with (`Eval.query`) against the
+    -- specification evaluator the theorems are about (`evStart/evDur/evEnd`), on every operation listed by circuit c
+    -- and on c itself.  The specification evaluator is exponential in the relation depth: small heaps only.
+    match c.toNat? with
+    | some c => if c ≥ s.circs.size then bad else
+      if s.w.ops.size > 30 then (s, "skip") else
+      let w := s.w
+      let objs := s.circs[c]! :: (w.leafListing w.depthFuel s.circs[c]!)
+      let memo := objs.map (fun o => (timesOf w o).map (fun (sd : Int × Int) => (sd.1, sd.2, sd.1 + sd.2)))
+      if memo.any Option.isNone then (s, "skip-undef") else
+      let spec := objs.map (fun o =>
+        match evStart w w.fuel o, evDur w w.fuel o, evEnd w w.fuel o with
+        | some a, some d, some e => some (a, d, e)
+        | _, _, _ => none)
+      if memo == spec then (s, s!"same {objs.length}") else (s, s!"MISMATCH {repr memo} {repr spec}")
+    | none => bad
   | ["identkeys"] => ({ s with w := { s.w with identKeys := true } }, "ok")
   | _ => bad
 
